@@ -83,3 +83,11 @@ Theorem C13_fan_cell_leaves_triangles `{Sig} : forall E n ks f nds c w cnt w' cn
     (forall i d, ~ In d (p0 :: C ++ flat (chunks2 nds)) -> beta w' i d = beta w i d).
 Proof. exact fan_cell_triangulates. Qed.
 Print Assumptions C13_fan_cell_leaves_triangles.
+
+(** Tie to the source: [fan_convex_cell], with the loop [fan_loop] and the body [fan_from] the theorems above are about,
+    is, verbatim, the program (and the recursive function for its loop over the pairs of spare darts) that
+    tools/tr_kern.py regenerates from triangulation/fan.rs::process_convex_cell on every run. *)
+From HC Require Import Map2.GenKern Map2.GenKernLaws.
+Theorem C13_fan_convex_is_the_source `{Sig} : forall n ks f nds, gen_fan_convex_cell n ks f nds = fan_convex_cell n ks f nds.
+Proof. exact gen_fan_convex_cell_ok. Qed.
+Print Assumptions C13_fan_convex_is_the_source.
